@@ -1239,6 +1239,7 @@ def serial_facts(program):
                 and n.ast.value.func.attr in ('find', 'index') and _is_buf(n.ast.value.func.value, buf) and isinstance(n.ast.targets[0], ast.Name):
             arg = n.ast.value.args[0] if n.ast.value.args else None
             finds.append((n.id, n.ast.targets[0].id, arg.value if isinstance(arg, ast.Constant) else None))
+    finds.sort(key=lambda t: (0 if all(g.dominates(t[0], o[0]) for o in finds) else 1, g.nodes[t[0]].line))
     facts['finds'] = finds
     return facts
 
@@ -1333,6 +1334,37 @@ def buf_rules(chk, program):
                   expected=f"(c) every iteration that does not exit removes the buffer through start + {P}", found={'consume_statements': {g.nodes[k].line: v for k, v in consumes.items()}},
                   detail='' if not back else 'an iteration can return to the loop head without consuming a whole packet (no progress / unbounded growth)')
     chk.unit('bound', f"len(buffer) <= K1 + 2*{f['R']} + {P} at every exit, K1 = {max(trims.values()) if trims else 'n/a'}")
+    # SER-DELIVER: once a marker with P bytes behind it is in the buffer, that window reaches decode_usb (no path back to the loop head or out avoids the decode call)
+    decs = [x for x, c in nodes_calling(g, lambda c: isinstance(c.func, ast.Attribute) and c.func.attr.startswith('decode_') and is_self_attr(c.func.value, ('decoder',)))]
+    for tid, lab, Pn in inc_tests[:1]:
+        complete = [v for v, l in g.succ[tid] if l != lab and l in ('true', 'false')]
+        if complete and decs and loops:
+            w = loops[0]
+            r = g.reach(complete[0], avoid=decs, include_src=True)
+            skipped = (w.id in r or g.exit.id in r) and complete[0] not in decs
+            chk.check(not skipped, 'SER-DELIVER', f"{q}::complete-window-is-decoded", file=IO, line=g.nodes[tid].line, func=q,
+                      expected=f"every window of {P} bytes behind a start marker is handed to the decoder (which validates length and checksum)",
+                      found='a path skips the decoder' if skipped else 'ok',
+                      detail='' if not skipped else 'a valid packet is discarded by a client-side heuristic (e.g. when its own bytes contain the marker) although encode/decode round-trip it')
+    # SCAN-PROGRESS (weaker than BUF-PROGRESS): every iteration that does not exit removes at least one byte
+    def any_progress(st):
+        amt = consume_amount(st, buf, startvar)
+        if amt is not None and amt >= 1:
+            return True
+        # del buf[:len(x)] / buf = buf[len(x):] with x bound to a P-byte slice of the buffer; del buf[:k] with a name known to be >= 1 is not assumed
+        def lenof(e):
+            return isinstance(e, ast.Call) and isinstance(e.func, ast.Name) and e.func.id == 'len' and e.args and isinstance(e.args[0], ast.Name)
+        if isinstance(st, ast.Delete) and len(st.targets) == 1 and isinstance(st.targets[0], ast.Subscript) and _is_buf(st.targets[0].value, buf) and isinstance(st.targets[0].slice, ast.Slice) \
+                and st.targets[0].slice.lower is None and st.targets[0].slice.upper is not None and lenof(st.targets[0].slice.upper):
+            return True
+        return False
+    prog_nodes = [n.id for n in g.nodes if n.kind == 'stmt' and any_progress(n.ast)]
+    for w in loops:
+        body = [v for v, l in g.succ[w.id] if l == 'true']
+        if body:
+            spin = w.id in g.reach(body[0], avoid=prog_nodes, include_src=True) and body[0] not in prog_nodes
+            chk.check(not spin, 'SCAN-PROGRESS', f"{q}::loop", file=IO, line=w.line, func=q, expected='every iteration of the await-free scan loop removes bytes from the buffer',
+                      found='an iteration can repeat without removing anything' if spin else 'ok', detail='' if not spin else 'the loop would spin forever inside one task: the event loop is starved')
     return f, P, marker
 
 def ser_const(chk, program, P, marker, rule='SER-CONST'):
